@@ -123,6 +123,16 @@ Theorem sched_drift_refuted :
 Proof. exact sched_drift_refuted_lem. Qed.
 Print Assumptions sched_drift_refuted.
 
+(* open finding C15-daily-dst: for the real libc (Europe/Berlin, daily 12:00, values returned by glibc on
+   2023-10-28/29) the model's next point after 28 Oct 12:00 CEST is 29 Oct 11:00 CET, not a 12:00
+   instant: the grid property — the premise of C15_schedule_daily — is false there. *)
+Theorem daily_dst_grid_refuted :
+  init_tp berlin_rtm (1698487200 * NS) = 1698573600 * NS /\
+  ~ berlin_noon (1698573600 * NS) /\
+  ~ grid_property berlin_rtm (1698487200 * NS) berlin_noon.
+Proof. exact daily_dst_grid_refuted_lem. Qed.
+Print Assumptions daily_dst_grid_refuted.
+
 (* non-vacuity: the premises hold for a GMT-like oracle (minutely schedule; daily grid property) *)
 Theorem C15_premises_satisfiable :
   (NA_ok toy_rtm_min (drift_cfg false) 0 (grid_pt toy_rtm_min (drift_cfg false) 0) /\
